@@ -1,5 +1,5 @@
 (* Generic driver, appended after the code extracted from Coq (which defines
-   the types sx = I of z | L of sx list, z, positive and the function run).
+   the types sx = I of z | L of sx list, z, positive and the function sx_main_entry).
    Reads one s-expression per line on stdin, prints run's answer per line.
    Integers must fit OCaml's 63-bit int (checked). *)
 let rec pos_of_int n =
@@ -58,7 +58,7 @@ let () =
        let line = input_line stdin in
        if String.length line > 0 then begin
          Buffer.clear b;
-         (try print b (run (parse line))
+         (try print b (sx_main_entry (parse line))
           with Failure m -> (Buffer.clear b; Buffer.add_string b ("ERROR " ^ m))
              | Stack_overflow -> (Buffer.clear b; Buffer.add_string b "ERROR stack overflow"));
          print_string (Buffer.contents b);
